@@ -11,6 +11,22 @@ PROPS = {
                 "ops match/find/group1/remove-all/split-after/find-all; non-trivial = the pattern matched",
         "kernel_sample": {"quick": 30, "thorough": 100},
     },
+    "C02": {
+        "n": {"quick": 2500, "thorough": 150000},
+        "cone": ["Bytes", "Regex", "Generated", "Netconf", "NetconfLemmas"],
+        "rule": "NetconfResponse.Record on raw bytes under recover(): well-formed stream = generated payloads (multi-byte UTF-8, '#', digits, "
+                "LF, ']]>' and rpc-error variants at chunk edges) x random partitions (incl. 1-byte chunks) x surrounding whitespace; malformed "
+                "stream = truncations, size mutations (negative/alpha/oversize/empty), dropped terminator, junk at marker positions, over-long "
+                "size headers, raw random over '#\\n0-9-+a<>' and a fixed boundary corpus; non-trivial = input longer than 8 bytes",
+        "level_text": "Theorems over the model of record1dot0/record1dot1Chunks/Record: the cursor-level transcription of the Go loop (every "
+                      "index and slice a checked access) refines the functional decoder and never panics; every RFC 6242 encoding of any "
+                      "chunk list decodes to exactly the trimmed payload; every listed malformation yields a parse error; an accepted result "
+                      "is a subsequence of the input. Tied to the code by differential runs of Record on generated well-formed and malformed "
+                      "frames and a model-free RFC 6242 reference decoder.",
+        "level_note": "Trusted: Coq kernel; generated constants (header, delimiter, max size length, marker list); extraction + main.ml; "
+                      "harness generators. Read-loop message delimiting (segmentation into reads) is exercised end-to-end under C08/C09.",
+        "assumptions": ["payloads are XML documents (declaration, if any, first); 1.0 payloads do not contain the ']]>]]>' delimiter"],
+    },
     "C13": {
         "n": {"quick": 400, "thorough": 20000},
         "cone": ["Bytes", "Generic", "GenericLemmas"],
